@@ -294,3 +294,9 @@ Proof.
     destruct Cy as [-> | ->]; destruct Cx as [-> | ->]; injection Hb as <-; vm_compute; intuition discriminate.
   - eexists. split; [vm_compute; reflexivity|]. cbn. auto.
 Qed.
+
+(** Tie to the source: the definitions regenerated by tools/py2v from the current odc/geo/overlap.py and odc/geo/math.py (coq/Gen/MathGen.v, rewritten on every run) are the model (Model/Overlap.v) the theorems above are stated on, up to the error kind. *)
+From OG Require Proofs.MathGenEquivO.
+Theorem C03_source_is_model : OG.Proofs.MathGenEquivO.overlap_source_is_model.
+Proof. exact OG.Proofs.MathGenEquivO.overlap_source_is_model_holds. Qed.
+Print Assumptions C03_source_is_model.
